@@ -127,7 +127,17 @@ func svNewBatch(checkCharge bool) {
 		e.k.SetRequestVolume(e.ctx, e.consumer, svService, e.p1, 3) // the volume discount applies
 	}
 	threshold := uint32(verifChoice("threshold", 2) + 1)
-	e.context(providers, verifIntIn("feeCap", one, w), threshold, types.RUNNING, false)
+	rc0 := e.context(providers, verifIntIn("feeCap", one, w), threshold, types.RUNNING, verifChoice("repeated", 2) == 1)
+	// arbitrary state left behind by earlier batches of a repeated context
+	prevBatches := verifUint64("prevBatches")
+	prevReq, prevResp := verifUint32("prevRequestCount"), verifUint32("prevResponseCount")
+	verifAssume(prevBatches < 1<<40 && prevResp <= prevReq && prevReq <= 2)
+	if !rc0.Repeated {
+		verifAssume(prevBatches == 0 && prevReq == 0)
+	}
+	rc0.BatchCounter, rc0.BatchRequestCount, rc0.BatchResponseCount = prevBatches, prevReq, prevResp
+	rc0.RepeatedTotal = -1
+	e.k.SetRequestContext(e.ctx, e.ctxID, rc0)
 	e.k.AddNewRequestBatch(e.ctx, e.ctxID, svHeight)
 	e.bank.fund(e.consumer, svDenom, verifIntIn("wallet", big.NewInt(0), verifPow2(42)))
 	c0, r0 := e.bal(e.consumer), e.reqEscrow()
@@ -154,7 +164,8 @@ func svNewBatch(checkCharge bool) {
 	} else {
 		verifAssertKnown(charged.Cmp(fees) == 0, "the consumer is charged exactly the sum of the fees recorded on the requests issued", "C07-undiscounted-charge", discounted)
 	}
-	verifAssert(rc.BatchCounter == 1 && rc.BatchState == types.BATCHRUNNING && int(rc.BatchRequestCount) == len(ids) && len(ids) >= int(threshold), "batch bookkeeping matches the requests issued")
+	verifAssert(rc.BatchCounter == prevBatches+1 && rc.BatchState == types.BATCHRUNNING && int(rc.BatchRequestCount) == len(ids) && len(ids) >= int(threshold), "batch bookkeeping matches the requests issued")
+	verifAssert(rc.BatchResponseCount == 0 && rc.BatchResponseThreshold == threshold, "a new batch starts with no responses counted")
 	verifAssert(e.k.HasRequestBatchExpiration(e.ctx, e.ctxID), "a running batch has an expiration entry")
 	for _, id := range ids {
 		verifAssert(e.k.IsRequestActive(e.ctx, id), "every issued request is active")
@@ -234,4 +245,69 @@ func VerifC08_BatchExpiry() {
 	} else {
 		verifAssert(still && e.k.HasNewRequestBatch(e.ctx, e.ctxID), "a repeated context below its total schedules its next batch")
 	}
+}
+
+// C08: a response is accepted iff it comes from the provider the request was addressed to while the
+// request is still active; it is then counted once, the request becomes inactive (so neither a second
+// answer nor the expiry handler touches it again), and the batch completes exactly when every request
+// of the batch has been answered.  A rejected answer changes nothing.
+func VerifC08_Respond() {
+	verifExpect("accepted", "rejected")
+	e := newSvEnv()
+	one, w := big.NewInt(1), verifPow2(40)
+	e.bind(e.p1, sdkmath.NewInt(10), verifIntIn("deposit1", one, w), sdkmath.LegacyDec{}, 5, true)
+	e.bind(e.p2, sdkmath.NewInt(10), verifIntIn("deposit2", one, w), sdkmath.LegacyDec{}, 5, true)
+	rc := e.context([]sdk.AccAddress{e.p1, e.p2}, sdkmath.NewInt(1000), 1, types.RUNNING, verifChoice("repeated", 2) == 1)
+	fee1, fee2 := verifIntIn("fee1", one, w), verifIntIn("fee2", one, w)
+	expiry := svHeight + 5
+	rc.BatchCounter, rc.BatchState, rc.BatchRequestCount = 1, types.BATCHRUNNING, 2
+	mk := func(idx int16, p sdk.AccAddress, fee sdkmath.Int) tmbytes.HexBytes {
+		id := types.GenerateRequestID(e.ctxID, 1, svHeight-5, idx)
+		e.k.SetCompactRequest(e.ctx, id, types.NewCompactRequest(e.ctxID, 1, p, sdk.Coins{sdk.Coin{Denom: svDenom, Amount: fee}}, svHeight-5, expiry))
+		e.k.AddActiveRequest(e.ctx, svService, p, expiry, id)
+		return id
+	}
+	id1, id2 := mk(0, e.p1, fee1), mk(1, e.p2, fee2)
+	e.bank.fund(vModuleAddr(types.RequestAccName), svDenom, fee1.Add(fee2))
+	otherAnswered := verifChoice("otherAnswered", 2) == 1
+	if otherAnswered {
+		e.k.DeleteActiveRequest(e.ctx, svService, e.p2, expiry, id2)
+		e.k.SetResponse(e.ctx, id2, types.NewResponse(e.p2, e.consumer, `{"code":200}`, "", e.ctxID, 1))
+		rc.BatchResponseCount = 1
+	}
+	alreadyAnswered := verifChoice("alreadyAnswered", 2) == 1
+	if alreadyAnswered {
+		e.k.DeleteActiveRequest(e.ctx, svService, e.p1, expiry, id1)
+		e.k.SetResponse(e.ctx, id1, types.NewResponse(e.p1, e.consumer, `{"code":200}`, "", e.ctxID, 1))
+		rc.BatchResponseCount++
+	}
+	e.k.SetRequestContext(e.ctx, e.ctxID, rc)
+	e.k.AddRequestBatchExpiration(e.ctx, e.ctxID, expiry)
+	e.k.SetRequestBatchExpirationHeight(e.ctx, e.ctxID, expiry)
+	responder, rightProvider := e.p1, true
+	if verifChoice("responder", 2) == 1 {
+		responder, rightProvider = e.p2, false
+	}
+	earned0 := e.bank.get(vModuleAddr(svFeeCollector), svDenom).BigInt()
+	rc0, _ := e.k.GetRequestContext(e.ctx, e.ctxID)
+	err, _ := e.verifDeliver(func() error {
+		_, _, err := e.k.AddResponse(e.ctx, id1, responder, `{"code":200,"message":""}`, "")
+		return err
+	})
+	rc1, still := e.k.GetRequestContext(e.ctx, e.ctxID)
+	if err != nil {
+		verifCover("rejected")
+		verifAssert(!rightProvider || alreadyAnswered, "the addressed provider's first answer to an active request is accepted")
+		verifAssert(still && rc1.BatchResponseCount == rc0.BatchResponseCount && rc1.BatchState == rc0.BatchState, "a rejected answer changes nothing")
+		verifAssert(e.k.IsRequestActive(e.ctx, id1) == !alreadyAnswered, "a rejected answer leaves the request as it was")
+		verifAssert(e.bank.get(vModuleAddr(svFeeCollector), svDenom).BigInt().Cmp(earned0) == 0, "a rejected answer moves no fee")
+		return
+	}
+	verifCover("accepted")
+	verifAssert(rightProvider && !alreadyAnswered, "only the addressed provider answers, and only once")
+	verifAssert(!e.k.IsRequestActive(e.ctx, id1), "an answered request is no longer active")
+	verifAssert(still && rc1.BatchResponseCount == rc0.BatchResponseCount+1, "the answer is counted exactly once")
+	verifAssert((rc1.BatchState == types.BATCHCOMPLETED) == otherAnswered, "the batch completes exactly when every request has been answered")
+	_, found := e.k.GetResponse(e.ctx, id1)
+	verifAssert(found, "the response is stored under the request id")
 }
